@@ -183,20 +183,20 @@ def configs(tier, seed):
                             cfg["perms"][str(ref_sys[0][1][1])] = tuple(reversed(range(T))) if (len(out) % 2) else tuple(range(T))
                         cfg["zero_rank"] = [None, T - 1, 1][len(out) % 3]
                         cfg["id0"] = 7 if len(out) % 2 else 0
-                        cfg["max_states"] = 4000 if tier == "quick" else 50000
+                        cfg["max_states"] = 4000 if tier == "quick" else 9000
                         out.append(cfg)
     # many workers ask for work before any result returns: three and more brackets open at the same time
     for name, T in (("custom3", 8), ("custom", 7), ("geo1-4-2", 8)):
         for mode in ("min", "max"):
             out.append(dict(sys=name, mode=mode, W=T, T=T, F=0, seed=seed, perms={}, use_mra=True, scratch=False, flood=True,
-                            max_states=1500 if tier == "quick" else 20000))
+                            max_states=1500 if tier == "quick" else 8000))
     # DEHB: structural subset
     for rf in ([(3, 1), (2, 2), (1, 4)], [(2, 1), (1, 3)]):
         for mode in ("min", "max"):
             for W in ((2,) if tier == "quick" else (1, 2, 3)):
                 for F in ((0, 1) if tier == "quick" else (0, 1, 2)):
                     out.append(dict(dehb=True, rungs_first=rf, mode=mode, W=W, T=5 if tier == "quick" else 7, F=F, seed=seed,
-                                    use_mra=True, nbi=None, max_states=3000 if tier == "quick" else 40000))
+                                    use_mra=True, nbi=None, max_states=3000 if tier == "quick" else 12000))
     return out
 
 
